@@ -261,8 +261,10 @@ def applyAll (mt : Str → Str → Bool) (g : PGraph Str) (rules : List RuleStat
       | .err k => .err k
   go [] false rules
 
-/-- `DiagramRule.assert_applies` given the file content (`none`: no file configured) -/
-def diagramAssert (mt : Str → Str → Bool) (content : Option Str) (base : Option Str) (shouldOnly : Bool)
+/-- `DiagramRule.assert_applies` given the file content (`none`: no file configured), BEFORE the repair of F-C13c:
+    the generated rules are applied without checking that the components of the diagram are modules of the
+    architecture (a diagram with one component and no arrow generates no rule, so that component is never looked up). -/
+def diagramAssertBeforeRepair (mt : Str → Str → Bool) (content : Option Str) (base : Option Str) (shouldOnly : Bool)
     (g : PGraph Str) : DVerdict :=
   match content with
   | none => .err .improperlyConfigured
@@ -270,6 +272,24 @@ def diagramAssert (mt : Str → Str → Bool) (content : Option Str) (base : Opt
     match pumlParse c with
     | .error k => .err k
     | .ok p => applyAll mt g (diagramRules shouldOnly (prefixParsed p base))
+
+/-- the repair of F-C13c: `[m for m in dependencies_with_fully_qualified_names.all_modules if m not in evaluable.modules]`
+    is non-empty (`evaluable.modules` is the node list of the graph) -/
+def diagramMissing (p : Parsed') (g : PGraph Str) : Bool := p.modules.any fun m => !g.hasNode m
+
+/-- `DiagramRule.assert_applies` given the file content (`none`: no file configured), after the repair of F-C13c:
+    file present (else ImproperlyConfigured) → parse (else PumlParsingError) → prefix → every (prefixed) component is a
+    module of the architecture (else `KeyError`, a lookup error) → the generated rules are applied. -/
+def diagramAssert (mt : Str → Str → Bool) (content : Option Str) (base : Option Str) (shouldOnly : Bool)
+    (g : PGraph Str) : DVerdict :=
+  match content with
+  | none => .err .improperlyConfigured
+  | some c =>
+    match pumlParse c with
+    | .error k => .err k
+    | .ok p =>
+      if diagramMissing (prefixParsed p base) g then .err .lookupError
+      else applyAll mt g (diagramRules shouldOnly (prefixParsed p base))
 
 end Pta
 
